@@ -47,23 +47,19 @@ func cleanString(s string) string {
 func formatType(t ast.ScalarKind, val interface{}) string {
 	// When the default is 0, is detected as integer even if it's a float.
 	parseFloatVal := func(val interface{}) interface{} {
-		if v, ok := val.(int64); ok {
+		switch v := val.(type) {
+		case float64:
+			return v
+		case float32:
 			return float64(v)
+		default:
+			return float64(tools.AnyToInt64(val))
 		}
-		return val.(float64)
 	}
 
 	// Integers could be floats in JSON
 	parseIntVal := func(val interface{}) interface{} {
-		if v, ok := val.(float64); ok {
-			return int64(v)
-		}
-
-		if v, ok := val.(int); ok {
-			return v
-		}
-
-		return val.(int64)
+		return tools.AnyToInt64(val)
 	}
 
 	if list, ok := val.([]interface{}); ok {
